@@ -95,9 +95,9 @@ RULES = {
 }
 
 
-def classes_of(V):
-    """vocabulary indices per token class, decided by the concrete recogniser's own predicates (relaxed identifier rule)"""
-    rg.RELAXED[0] = True
+def classes_of(V, relaxed=True):
+    """vocabulary indices per token class, decided by the concrete recogniser's own predicates"""
+    rg.RELAXED[0] = relaxed
     try:
         ident = [k for k, v in enumerate(V) if rg.is_ident(v)]
     finally:
@@ -108,16 +108,16 @@ def classes_of(V):
         "op": [k for k, v in enumerate(V) if v in rg.OPS],
         "atom": [k for k, v in enumerate(V) if v in rg.DEFAULT_ATOMS],
         "hdr": [k for k, v in enumerate(V) if v != ">"],
-        "alpha": [k for k, v in enumerate(V) if v.isalpha()],           # relaxed, like identifiers
+        "alpha": [k for k, v in enumerate(V) if v.isalpha() and (relaxed or v not in rg.RESERVED)],
     }
 
 
 class Sym:
     """match relation of RULES over the symbolic stream (tok, length) with vocabulary V"""
 
-    def __init__(self, V, N, tok, length):
+    def __init__(self, V, N, tok, length, relaxed=True):
         self.V, self.N, self.tok, self.length = V, N, tok, length
-        self.cls = classes_of(V)
+        self.cls = classes_of(V, relaxed)
         self.memo = {}
         self.nodes = 0
 
@@ -193,9 +193,11 @@ class Sym:
         return Or_([z3.And(c, self.length == j) for j, c in res.items()])
 
 
-def concrete(tokens):
-    """the concrete recogniser, under the same rule set as the symbolic one (relaxed identifiers, atom defaults)"""
+def concrete(tokens, relaxed=True):
+    """the concrete recogniser, under the same rule set as the symbolic one (relaxed or strict identifiers, atom defaults)"""
     toks = list(tokens)
+    if not relaxed:
+        return rg.well_formed(toks, relaxed=False)
     # strict defaults + relaxed identifiers: refgrammar's relaxed mode also relaxes defaults and headers, so test the
     # strict-default condition here and let the recogniser do the rest
     for k, t in enumerate(toks):
